@@ -7,6 +7,11 @@ BOOL = {"k": "bool"}
 STR = {"k": "str"}
 FLOAT = {"k": "float"}
 ANY = {"k": "any"}
+BYTES = {"k": "bytes"}
+
+
+def BARR(n):
+    return {"k": "barr", "n": n}
 
 
 def INT(bits, signed=True):
@@ -46,7 +51,7 @@ def O(**kw):
     return d
 
 
-SCALARS = [BOOL, STR, FLOAT, INT(8), INT(16, False), INT(32), INT(64), INT(64, False)]
+SCALARS = [BOOL, STR, FLOAT, INT(8), INT(16, False), INT(32), INT(64), INT(64, False), BYTES]
 
 MOPTS = [O(), O(det=True), O(det=True, nsn=True, nmn=True), O(det=True, oz=True), O(det=True, sn=True), O(sn=True, oz=True, nsn=True)]
 UOPTS = [O(), O(sn=True), O(ru=True), O(ci=True), O(ad=True), O(ad=True, ci=True)]
@@ -64,6 +69,8 @@ HAND = [
     STRUCT(F("x", ANY), F("y", ANY, omitempty=True), F("z", ANY, omitzero=True)),
     STRUCT(F("Ab", STR, casing=1), F("a_b", STR, casing=2), F("AB", STR)),
     STRUCT(F("k", INT(8), casing=1), F("\u212a", STR), F("\u03c3x", BOOL, casing=1), F("S", STR, casing=2)),
+    BYTES, BARR(0), BARR(2), SLICE(BYTES), MAP(STR, BYTES), PTR(BARR(1)),
+    STRUCT(F("b", BYTES, omitempty=True), F("z", BYTES, omitzero=True), F("a", BARR(2), omitzero=True), F("e", BARR(0), omitempty=True), F("s", BYTES, string=True, omitempty=True)),
     STRUCT(F("n", FLOAT, string=True), F("p", PTR(INT(16, False)), string=True), F("s", STR, string=True), F("b", BOOL, string=True)),
     STRUCT(F("bad", SLICE(INT(8)), string=True, omitempty=True), F("ok", INT(8))),
     STRUCT(F("m", MAP(STR, INT(8)), string=True), F("ok", INT(8))),
@@ -131,6 +138,10 @@ def count_values(t, d):
         return 2 if d == 0 else (5 if t["signed"] else 3)
     if k == "float":
         return 2 if d == 0 else 6
+    if k == "bytes":
+        return 3 if d == 0 else 6
+    if k == "barr":
+        return 2
     if k == "slice":
         return 1 + count_values(t["e"], _dec(d)) + (0 if d == 0 else 1 + count_values(t["e"], 0) ** 2)
     if k == "array":
@@ -158,6 +169,8 @@ def count_inputs(t, d):
         return 6 if d == 0 else 17
     if k == "float":
         return 4 if d == 0 else 14
+    if k in ("bytes", "barr"):
+        return 5 if d == 0 else 17
     if k == "slice":
         return 2 + count_inputs(t["e"], _dec(d)) + (0 if d == 0 else 2 + count_inputs(t["e"], 0) ** 2)
     if k == "array":
